@@ -242,14 +242,84 @@ def r3_lift_only_sole_term(ctx):
               "strip_sequence lifts a block that is not the sole term of its chain (length tests found: %s)" % [(t[2], t[3]) for t in tests], b.loc(ext[0]))
 
 
+def r5_written_order(ctx):
+    R = "R-C02-5"
+    ctx.rule(R, "written order decides: (a) the alternatives of a pattern are tried in the order they were written — no sort / reverse / swap / rotate / "
+                "dedup is applied to a Vec<BindingSet> anywhere in compiler::pattern (overlapping alternatives bind differently); (b) a named field of a "
+                "tuple literal with spreads takes its value from the RIGHTMOST source — every FieldSource stored for a named field in "
+                "spread::build_field_sources_for_variant is stored from inside the forward scan over compiled_values (last store wins), as the typing "
+                "pass build_field_variants assumes")
+    F = ctx.facts
+    bad = []
+    n = 0
+    for body in F.bodies(crate="quiver_compiler"):
+        if "::pattern::" not in body.key:
+            continue
+        for bi, t in body.calls():
+            m = (t.get("callee") or "").split("::")[-1]
+            if t["args"] and op_place(t["args"][0]) and "BindingSet" in (body.local_ty(op_place(t["args"][0])["l"]) or ""):
+                n += 1
+                if m in ("sort", "sort_by", "sort_by_key", "sort_unstable", "sort_unstable_by", "sort_unstable_by_key", "sort_by_cached_key", "reverse", "swap",
+                         "rotate_left", "rotate_right", "dedup", "dedup_by", "dedup_by_key", "select_nth_unstable", "swap_remove"):
+                    bad.append((body, bi, m))
+    for body, bi, m in bad:
+        ctx.violated(R, "%s|%s(binding sets)" % (body.key, m), "the binding sets of a pattern are re-ordered (%s): alternatives are no longer tried in written "
+                                                              "order, so an overlapping later alternative can bind the variables" % m, body.loc(bi))
+    if not bad:
+        ctx.ok(R, "compiler::pattern|binding-set order", "%d operations on Vec<BindingSet>, none re-orders" % n)
+    ctx.floor(R, "operations on binding-set vectors", n, 5)
+    b = F.body("quiver_compiler::compiler::spread::build_field_sources_for_variant")
+    fl = Flow(b, through_named=True)
+    cv = b.param_by_type(lambda ty: "spread::CompiledValue" in ty, what="compiled_values parameter")
+    TCI = ("slice::iter", "Iterator::enumerate", "IntoIterator::into_iter", "Iterator::rev", "Deref::deref")
+    headers = [bi for bi, t in b.calls() if (t.get("callee") or "").endswith("Iterator::next") and op_place(t["args"][0]) and
+               cv in fl.backward({op_place(t["args"][0])["l"]}, through_calls=TCI)]
+    stores = []
+    for bi, si, st in b.stmts():
+        if st["k"] == "assign" and st["rv"]["k"] == "agg" and (st["rv"].get("adt") or "").endswith("spread::FieldSource") and st["rv"]["variant"] in ("CompiledField", "SpreadField"):
+            # stores into field_sources (Vec<Option<FieldSource>>), not pushes onto the unnamed list
+            fw = Flow(b).forward({st["p"]["l"]})
+            into_sources = False
+            for b2, t2 in b.calls():
+                if (t2.get("callee") or "").endswith("IndexMut::index_mut") and "Option<quiver_compiler::compiler::spread::FieldSource" in (b.local_ty(t2["dest"]["l"]) or ""):
+                    if b.reaches(bi, b2) or b.reaches(b2, bi):
+                        for b3, s3, st3 in b.stmts():
+                            if st3["k"] == "assign" and st3["p"]["l"] == t2["dest"]["l"] and st3["p"]["pr"] and op_place(st3["rv"].get("op") or {}) and \
+                                    op_place(st3["rv"]["op"])["l"] in fw:
+                                into_sources = True
+            if into_sources:
+                stores.append((bi, si, st["rv"]["variant"]))
+    ctx.floor(R, "named-field source stores", len(stores), 2)
+    for i, (bi, si, v) in enumerate(stores):
+        inside = any(b.dominates(h, bi) and b.reaches(bi, h) for h in headers)     # nested loops share a cycle: the scan header must DOMINATE the store
+        ctx.check(inside, R, "%s|store#%d(%s)" % (b.key, i, v), "stored from inside the forward scan over compiled_values (a later source overwrites it)",
+                  "a named field's source is fixed OUTSIDE the scan over all sources (%s): a spread to the right of an explicit field no longer "
+                  "overrides it, while build_field_variants still types the field from the rightmost source — the tuple's static type and its "
+                  "contents disagree" % v, b.loc(bi, si))
+
+
 def r4_emitted_stack_discipline(ctx):
     """the stack bookkeeping of the emitted code (where the flowing value sits, what each branch leaves behind) — shared with R-C07-7"""
     from rules import c07
     c07.r7_emitted_stack_discipline(ctx, "R-C02-4")
 
 
+def r6_narrowing_scope(ctx):
+    """which branch runs depends on runtime checks the compiler may only drop for the variable that was actually narrowed — shared with R-C01-5"""
+    from rules import c01
+    before = len(ctx.obs)
+    c01.r5_narrowing_belongs_to_its_binding(ctx)
+    for o in ctx.obs[before:]:
+        o["rule"] = "R-C02-6"
+    if "R-C01-5" in ctx.rules:
+        ctx.rules["R-C02-6"] = ctx.rules.pop("R-C01-5")
+    for f in ctx.floors:
+        if f["rule"] == "R-C01-5":
+            f["rule"] = "R-C02-6"
+
+
 def run(ctx):
-    ctx.run_rules([r1_placeholders_patched, r2_branch_reset, r3_lift_only_sole_term, r4_emitted_stack_discipline])
+    ctx.run_rules([r1_placeholders_patched, r2_branch_reset, r3_lift_only_sole_term, r4_emitted_stack_discipline, r5_written_order, r6_narrowing_scope])
     ctx.note("NOT decided: stack offsets (Pick/Rotate), local-slot alignment (nil fill, Reset), branch ordering, instruction semantics — the values programs compute are out of reach of a static analysis of the compiler's source")
     return (
         "Decides ONE structural necessary condition of C02: every placeholder jump planted by the code generator is pointed at its join on every "
